@@ -43,8 +43,7 @@ let obs_line c =
   let kbstring = ocaml_string_of_codes (get_KBString c)
   and kbstr = match config_get_str name_keyboard_type c with
     | SOk s -> "0:" ^ tok (ocaml_string_of_codes s)
-    | SError -> "-1:-"
-    | SPanic -> "PANIC:-" in
+    | SError -> "-1:-" in
   let sel = Stdlib.List.map (fun z -> string_of_int (iz z)) (get_selKey c) in
   Printf.sprintf "I %s K %d %s %s S %s P %d" (join ints) (iz (get_KBType c)) (tok kbstring) kbstr (join sel)
     (if syl_pending c then 1 else 0)
@@ -63,8 +62,7 @@ let main args =
          let cps = Stdlib.List.map (fun n -> string_of_int (inn n)) s in
          output_string oc (Stdlib.String.trim (Printf.sprintf "G %d %d OK %d %s" !id !idx (Stdlib.List.length cps) (join cps)));
          output_char oc '\n'
-       | SError -> Printf.fprintf oc "G %d %d ERR\n" !id !idx
-       | SPanic -> Printf.fprintf oc "G %d %d PANIC\n" !id !idx);
+       | SError -> Printf.fprintf oc "G %d %d ERR\n" !id !idx);
       incr idx in
     (try
        while true do
